@@ -252,6 +252,200 @@ where
     }
 }
 
+/// `open` handed a polynomial larger than the committer key supports (committed under a larger key cut
+/// from the same parameters): no proof may come back, at any size between the two limits.
+pub fn oversize_open<S: Sch>(rec: &mut Rec)
+where
+    S: crate::checks::c04::UniSch,
+{
+    let pairs: Vec<(KeyCfg, KeyCfg)> = if S::NAME == "IPA" {
+        vec![(KeyCfg::uni(15, 15, 1, None), KeyCfg::uni(15, 7, 1, None)), (KeyCfg::uni(7, 7, 1, None), KeyCfg::uni(7, 3, 1, None)), (KeyCfg::uni(7, 7, 1, None), KeyCfg::uni(7, 1, 1, None))]
+    } else {
+        vec![(KeyCfg::uni(8, 8, 1, None), KeyCfg::uni(8, 5, 1, None)), (KeyCfg::uni(8, 8, 2, Some(vec![8])), KeyCfg::uni(8, 3, 2, Some(vec![3])))]
+    };
+    for (big_cfg, small_cfg) in pairs {
+        let id = format!("{}/oversize-open/{}->{}", S::NAME, big_cfg.id(), small_cfg.id());
+        if !rec.take(&id) {
+            continue;
+        }
+        rec.dim("scheme", S::NAME);
+        let (big, small) = match (build_keys::<S>(&big_cfg, rec.seed), build_keys::<S>(&small_cfg, rec.seed)) {
+            (Ok(a), Ok(b)) => (a, b),
+            _ => continue,
+        };
+        let (s_small, _) = crate::checks::c04::eff::<S>(&small_cfg);
+        let (s_big, _) = crate::checks::c04::eff::<S>(&big_cfg);
+        let r = rho_stream::<S::F>(rec.seed, 1, s_big + 2);
+        let z = S::point(rho::<S::F>(rec.seed, 5));
+        for deg in (s_small + 1)..=s_big {
+            for h in [None, Some(1usize)] {
+                let c = match commit_set::<S>(&big, vec![lp::<S>("p", S::poly(&r[..=deg]), None, h)], rec.seed, 0) {
+                    Ok(c) => c,
+                    Err(_) => continue,
+                };
+                let (polys, cmr, sts) = c.refs();
+                let mut sponge = sponge_pre::<S::F>(0);
+                let mut rng = seed_rng(rec.seed, 20);
+                let res = do_open::<S>(&small.ck, &polys, &cmr, &z, &mut sponge, &sts, Some(&mut rng as &mut dyn RngCore));
+                refused(rec, S::NAME, "open", "polynomial-too-large", &id, res.is_ok(), format!("a degree-{} polynomial (hiding {:?}) was opened under a committer key supporting degree {}", deg, h, s_small));
+                // the commit side of the same request, for completeness of the boundary table
+                let res = do_commit::<S>(&small.ck, &[lp::<S>("p", S::poly(&r[..=deg]), None, None)], None);
+                refused(rec, S::NAME, "commit", "polynomial-too-large", &id, res.is_ok(), format!("degree {} committed under supported degree {}", deg, s_small));
+            }
+        }
+    }
+}
+
+/// PST13: total degree and hiding bound around the key limits.
+pub fn sizes_pst(rec: &mut Rec) {
+    use ark_poly::DenseMVPolynomial;
+    for cfg in [KeyCfg::mv(2, 3, 2), KeyCfg::mv(3, 2, 1), KeyCfg::mv(1, 4, 2), KeyCfg::mv(4, 2, 2)] {
+        let id = format!("PST/sizes/{}", cfg.id());
+        if !rec.take(&id) {
+            continue;
+        }
+        rec.dim("scheme", "PST");
+        let keys = match build_keys::<SPst>(&cfg, rec.seed) {
+            Ok(k) => k,
+            Err(_) => continue,
+        };
+        let nv = cfg.nv.unwrap();
+        let r = rho_stream::<Fr381>(rec.seed, 1, 8);
+        let mono = |d: usize, var: usize| -> MVP<Fr381> {
+            use ark_poly::multivariate::{SparseTerm, Term};
+            MVP::<Fr381>::from_coefficients_vec(nv, vec![(r[0], SparseTerm::new(vec![(var, d)])), (r[1], SparseTerm::new(vec![]))])
+        };
+        for d in [cfg.sup.saturating_sub(1).max(1), cfg.sup, cfg.sup + 1, cfg.max, cfg.max + 1] {
+            for var in [0, nv - 1] {
+                let res = do_commit::<SPst>(&keys.ck, &[lp::<SPst>("p", mono(d, var), None, None)], None);
+                if d > cfg.sup {
+                    refused(rec, "PST", "commit", "polynomial-too-large", &id, res.is_ok(), format!("total degree {} committed under supported degree {}", d, cfg.sup));
+                } else {
+                    rec.count_points(1);
+                    rec.class(if res.is_ok() { "in-domain-served" } else { "in-domain-refused" });
+                    if let Err(o) = res {
+                        rec.violation("C17/PST/commit/in-domain-refused", &id, format!("total degree {} <= supported {} refused: {}", d, cfg.sup, o.short()));
+                    }
+                }
+            }
+        }
+        for h in [1usize, cfg.sup.saturating_sub(1).max(1), cfg.sup, cfg.sup + 1, cfg.sup + 2, cfg.max + 1, cfg.max + nv + 2] {
+            let mut rng = seed_rng(rec.seed, 0);
+            let res = do_commit::<SPst>(&keys.ck, &[lp::<SPst>("p", mono(1, 0), None, Some(h))], Some(&mut rng as &mut dyn RngCore));
+            if h > cfg.sup {
+                refused(rec, "PST", "commit", "hiding-beyond-key", &id, res.is_ok(), format!("hiding bound {} served by a key supporting degree {}", h, cfg.sup));
+            } else {
+                rec.count_points(1);
+                rec.class(if res.is_ok() { "in-domain-served" } else { "in-domain-refused" });
+                if let Err(o) = res {
+                    rec.violation("C17/PST/commit/in-domain-refused", &id, format!("hiding bound {} within the key limit {} refused: {}", h, cfg.sup, o.short()));
+                }
+            }
+        }
+    }
+}
+
+/// A verifier handed a point with the wrong number of coordinates (multilinear / multivariate schemes),
+/// directly, with an honest proof for a well-formed point: never accepted.
+pub fn check_wrong_point<S: Sch<Pt = Vec<<S as Sch>::F>>>(rec: &mut Rec) {
+    let nv_key: usize = match S::NAME {
+        "HYR" => 4,
+        "PST" => 2,
+        _ => 3,
+    };
+    let id = format!("{}/check-point-dimension/key-nv={}", S::NAME, nv_key);
+    if !rec.take(&id) {
+        return;
+    }
+    rec.dim("scheme", S::NAME);
+    let mk = |nv: usize| if S::NAME == "PST" { KeyCfg::mv(nv, 2, 2) } else { KeyCfg::ml(nv) };
+    let cfg = mk(nv_key);
+    let keys = match build_keys::<S>(&cfg, rec.seed) {
+        Ok(k) => k,
+        Err(_) => return,
+    };
+    let p = S::shapes(&cfg, rec.seed).pop().unwrap().1;
+    let c = match commit_set::<S>(&keys, vec![lp::<S>("p", p, None, None)], rec.seed, 0) {
+        Ok(c) => c,
+        Err(_) => return,
+    };
+    let z = S::points(&cfg, rec.seed)[0].1.clone();
+    let s1 = match open_single::<S>(&keys, &c, &[0], &z, 0, rec.seed, 0) {
+        Ok(s) => s,
+        Err(_) => return,
+    };
+    let cr: Vec<&LCm<S>> = c.comms.iter().collect();
+    let base = check_single::<S>(&keys, &cr, &z, &s1.values, &s1.proof, 0, rec.seed, 0);
+    rec.count_points(1);
+    rec.class(if base.accepted() { "baseline-accepted" } else { "baseline-rejected" });
+    for onv in 0..=(nv_key + 2) {
+        if onv == nv_key {
+            continue;
+        }
+        if onv == 0 && S::NAME != "HYR" {
+            continue;
+        }
+        for pi in 0..2usize {
+            let zs = S::points(&mk(onv.max(1)), rec.seed);
+            let mut zo = zs[pi.min(zs.len() - 1)].1.clone();
+            if onv == 0 {
+                zo = S::points(&KeyCfg::ml(0), rec.seed)[0].1.clone();
+            }
+            let d = check_single::<S>(&keys, &cr, &zo, &s1.values, &s1.proof, 0, rec.seed, 0);
+            // a point that merely appends coordinates to the proved point states something true about the
+            // polynomial read in more variables; ignoring the extra coordinates is not a wrong result.
+            // Anything else that is accepted, and any false value, is.
+            let extends = zo.len() > z.len() && zo[..z.len()] == z[..];
+            if d.accepted() && extends {
+                rec.count_points(1);
+                rec.class("extra-coordinates-ignored");
+            } else {
+                refused(rec, S::NAME, "check", "point-of-wrong-length", &id, d.accepted(), format!("honest proof for a {}-coordinate point accepted at a point with {} coordinates that does not extend it", nv_key, onv));
+            }
+            let mut vf = s1.values.clone();
+            vf[0] += S::F::one();
+            let df = check_single::<S>(&keys, &cr, &zo, &vf, &s1.proof, 0, rec.seed, 0);
+            refused(rec, S::NAME, "check", "point-of-wrong-length-false-value", &id, df.accepted(), format!("false value accepted at a point with {} coordinates (key: {} variables)", onv, nv_key));
+            // and the prover's side for every length (even lengths included)
+            let r = open_single::<S>(&keys, &c, &[0], &zo, 0, rec.seed, 0);
+            if let Ok(s2) = r {
+                let mut v2 = s2.values.clone();
+                v2[0] += S::F::one();
+                let f = check_single::<S>(&keys, &cr, &zo, &v2, &s2.proof, 0, rec.seed, 0);
+                refused(rec, S::NAME, "open", "point-of-wrong-length", &id, f.accepted(), format!("point with {} coordinates for {} variables: a proof was produced and a false value verifies", onv, nv_key));
+            } else {
+                refused(rec, S::NAME, "open", "point-of-wrong-length", &id, false, String::new());
+            }
+        }
+    }
+}
+
+/// Linear codes: degrees beyond what the field's FFT domain supports, at setup, trim and commit.
+pub fn linear_code_limits(rec: &mut Rec) {
+    use ark_poly_commit::linear_codes::LigeroPCParams;
+    let id = "LIG/field-limits".to_string();
+    if !rec.take(&id) {
+        return;
+    }
+    rec.dim("scheme", "LIG");
+    let mut rng = seed_rng(rec.seed, 10);
+    // BLS12-381 Fr has two-adicity 32: with rho_inv = 4 the largest supported degree is 2^56
+    for d in [1usize << 57, usize::MAX] {
+        let r = flat(catch(|| Lig::setup(d, None, &mut rng)));
+        refused(rec, "LIG", "setup", "degree-beyond-field", &id, r.is_ok(), format!("setup({}) succeeded", d));
+    }
+    let r = flat(catch(|| Lig::setup(1 << 56, None, &mut rng)));
+    rec.count_points(1);
+    rec.class(if r.is_ok() { "in-domain-served" } else { "in-domain-refused" });
+    if let Err(o) = r {
+        rec.violation("C17/LIG/setup/in-domain-refused", &id, format!("setup(2^56) refused: {}", o.short()));
+    }
+    // rate so small that no FFT domain fits: trim must refuse, commit must not answer
+    let pp: <Lig as PolynomialCommitment<Fr381, UP<Fr381>>>::UniversalParams = LigeroPCParams::new(128, 33, true, (), (), ());
+    let r = flat(catch(|| Lig::trim(&pp, 1, 1, None)));
+    refused(rec, "LIG", "trim", "rate-beyond-field", &id, r.is_ok(), "trim of parameters with rho_inv = 33 > two-adicity succeeded".into());
+}
+
 /// Wrong numbers of variables for the multilinear / multivariate schemes.
 pub fn variables<S: Sch>(rec: &mut Rec) {
     let (nv_key, others): (usize, Vec<usize>) = match S::NAME {
@@ -497,6 +691,15 @@ pub fn run(rec: &mut Rec) {
     degree_bounds::<SMar>(rec);
     degree_bounds::<SSon>(rec);
     degree_bounds::<SIpa>(rec);
+    oversize_open::<SMar>(rec);
+    oversize_open::<SSon>(rec);
+    oversize_open::<SIpa>(rec);
+    sizes_pst(rec);
+    check_wrong_point::<SPst>(rec);
+    check_wrong_point::<SHyr>(rec);
+    check_wrong_point::<SMll>(rec);
+    check_wrong_point::<SBrk>(rec);
+    linear_code_limits(rec);
     variables::<SPst>(rec);
     variables::<SHyr>(rec);
     variables::<SMll>(rec);
